@@ -121,8 +121,7 @@ def make_harness(tier):
             n_pub = ctx.pick(f"npub{c}", npub if not small else (1, 3))
             n_priv = ctx.pick(f"npriv{c}", (0, 2) if not small else (2,))
             extras = ctx.pick(f"extras{c}", extras_opts if not small else extras_opts[-1:])
-            fill = ctx.pick(f"fill{c}", ("plain", "blank+comment") if not small else ("blank+comment",)) \
-                if lang not in ("typescript", "javascript") else "plain"
+            fill = ctx.pick(f"fill{c}", ("plain", "blank+comment") if not small else ("blank+comment",))
             L, pub, loc, hl = gen_class(lang, name, n_pub, n_priv, extras, fill != "plain",
                                         fill != "plain", len(lines) + 1)
             classes.append((name, pub, loc, hl))
@@ -193,7 +192,6 @@ def h_kernel(ctx):
 ASSUMPTIONS = (
     "thresholds declared >= 1 in the whole-rule harness (non-positive values are C05's subject; the kernel harness covers them)",
     "lines of code = non-blank, non-comment lines of the class/struct+impl text, as documented",
-    "TypeScript/JavaScript classes are generated without blank/comment lines (LOC definition there is not second-guessed)",
 )
 
 
